@@ -14,7 +14,7 @@ RULE = (
 )
 ASSUMPTIONS = [
     "tick rounding after the clip follows C19 (non-aggressive direction, less than one tick, 4-ulp slack)",
-    "one rule per market",
+    "when several enabled rules target one market the tightest band decides (each rule clips in turn, the bands are nested around the same p0)",
 ]
 REQUIRED = {
     "quick": {"orders_judged": 20000, "class/target_far_above": 500, "class/target_far_below": 500,
@@ -57,6 +57,11 @@ def gen_case(rng, tier, idx):
     if len(rest) >= 2 and rng.random() < 0.3:
         cfg["PL2"] = {"class": "PriceLimitRule", "targetMarkets": rest[:1], "triggerChangeRate": rng.choice([0.02, 0.2])}
         rules.append("PL2")
+    elif rng.random() < 0.2:
+        # a second rule with another rate on (some of) the same markets: both clip, the tighter band decides
+        cfg["PL2"] = {"class": "PriceLimitRule", "targetMarkets": rng.sample(targets, rng.randint(1, len(targets))),
+                      "triggerChangeRate": rng.choice([0.02, 0.2, 0.5])}
+        rules = rng.sample(["PL", "PL2"], 2)
     eps = 2.3e-16
     mult = [1 - 3 * r, 1 - 1.5 * r, 1 - r, (1 - r) * (1 - eps), (1 - r) * (1 + eps), 1 - 0.5 * r, 1.0, 1 + 0.5 * r,
             (1 + r) * (1 - eps), (1 + r) * (1 + eps), 1 + r, 1 + 1.5 * r, 1 + 3 * r, 0.2, 5.0, 0.0]
@@ -112,9 +117,12 @@ class C15Monitor:
             if isinstance(e, dict) and e.get("class") == "PriceLimitRule" and name in registered_from:
                 for t in e["targetMarkets"]:
                     if e.get("enabled", True):
-                        self.rule_of[t] = e["triggerChangeRate"]
+                        if t in self.rule_of:
+                            res.count("class/market_under_two_rules")
+                        self.rule_of[t] = min(self.rule_of.get(t, e["triggerChangeRate"]), e["triggerChangeRate"])
                     else:
                         self.disabled_targets.add(t)
+        self.disabled_targets -= set(self.rule_of)
         self.requests = {}
         self.band_of = {}       # (market_id, order_id) -> (lo, hi) at decision, or None
         self.cur = None
